@@ -42,8 +42,25 @@ pub fn sint_usize(v: usize) -> i64 {
     sint(v as u64)
 }
 
+/// TIMESTAMP OFFSET and ID FORMAT of a scenario ("tsoff": B, "ulid": true), in the manner of SCALE: every order
+/// timestamp is shifted by B on the way in and shifted back on the way out (arrival times in micro- or nanoseconds,
+/// or at the 64-bit limit, ahead of the wall clock), and every order id is issued in the ULID format.
+pub static TSOFF: std::sync::atomic::AtomicU64 = std::sync::atomic::AtomicU64::new(0);
+pub static ULID_IDS: std::sync::atomic::AtomicBool = std::sync::atomic::AtomicBool::new(false);
+pub fn ts_in(t: u64) -> u64 {
+    t.saturating_add(TSOFF.load(std::sync::atomic::Ordering::Relaxed))
+}
+pub fn ts_out(t: u64) -> i64 {
+    let b = TSOFF.load(std::sync::atomic::Ordering::Relaxed);
+    if t >= b {
+        sint(t - b)
+    } else {
+        -CLAMP + 11
+    }
+}
+
 pub fn oid_of(n: u64) -> OrderId {
-    if n >= 1_000_000 {
+    if n >= 1_000_000 || ULID_IDS.load(std::sync::atomic::Ordering::Relaxed) {
         // ULID flavoured ids
         OrderId::from_ulid(ulid::Ulid::from((n as u128) << 64 | 0x5555))
     } else {
@@ -108,7 +125,7 @@ pub fn order_of(v: &Value) -> OrderType<()> {
     let id = oid_of(u(v, "id"));
     let price = v.get("px").and_then(|x| x.as_u64()).unwrap_or(100);
     let side = side_of(v.get("side").and_then(|x| x.as_str()).unwrap_or("Buy"));
-    let timestamp = u(v, "ts");
+    let timestamp = ts_in(u(v, "ts"));
     let par = v.get("par").and_then(|x| x.as_str()).unwrap_or("GTC");
     let mut parts = par.split('|');
     let time_in_force = tif_of(parts.next().unwrap_or("GTC"));
@@ -193,7 +210,7 @@ pub fn order_json(o: &OrderType<()>) -> Value {
         }
     };
     json!({"id": id_num(&o.id()), "kind": kind, "vis": sq(o.visible_quantity()), "hid": sq(o.hidden_quantity()),
-           "thr": thr, "amt": amt, "auto": auto, "ts": sint(o.timestamp()), "side": side_str(o.side()),
+           "thr": thr, "amt": amt, "auto": auto, "ts": ts_out(o.timestamp()), "side": side_str(o.side()),
            "px": sint(o.price()), "par": par})
 }
 
